@@ -509,6 +509,20 @@ func sweepContainers(pj *simdjson.ParsedJson, deep bool) error {
 					return err
 				}
 			}
+			// and one after the other on the same Array value (the typed accessors consume it:
+			// what one call leaves behind is what the next one starts from), in two orders
+			for pass := 0; pass < 2; pass++ {
+				cp := *a
+				for k := range ops {
+					op := ops[k]
+					if pass == 1 {
+						op = ops[len(ops)-1-k]
+					}
+					if err := run(op.n+" (after other accessors on the same Array)", func() { op.f(&cp) }); err != nil {
+						return err
+					}
+				}
+			}
 			continue
 		}
 		o, err := c.Object(nil)
@@ -578,6 +592,12 @@ func sweepContainers(pj *simdjson.ParsedJson, deep bool) error {
 		for _, op := range ops {
 			cp := *o
 			if err := run(op.n, func() { op.f(&cp) }); err != nil {
+				return err
+			}
+		}
+		cp := *o
+		for _, op := range ops {
+			if err := run(op.n+" (after other accessors on the same Object)", func() { op.f(&cp) }); err != nil {
 				return err
 			}
 		}
